@@ -297,7 +297,11 @@ impl LevelManifest {
 			.max()
 			.unwrap_or(0);
 
-		if computed_max_seq != last_sequence {
+		// `last_sequence` never decreases, but compaction may legitimately drop the
+		// entries carrying the highest sequence numbers (e.g. a tombstone reaching the
+		// bottom level), so the tables may top out below it. Only a table holding a
+		// sequence number beyond `last_sequence` is inconsistent.
+		if computed_max_seq > last_sequence {
 			return Err(Error::LoadManifestFail(format!(
 				"Manifest last_sequence mismatch: stored={}, computed from tables={}",
 				last_sequence, computed_max_seq
